@@ -26,11 +26,14 @@ import (
 //	gc        every pool loses its content (+ a real runtime.GC when K>0)
 //	panic_cb  ReplaceAllFunc on V whose callback panics at the K-th match (recovered by the caller)
 //	wrap      steer V's recycled backtracker generation to the value it had K searches ago (time skip by real calls)
+//	conc      the calls Ops run on V at the same time under the simulated scheduler (seed K); ages the pool
+//	          population through the contended hand-off paths; every result is checked like an op
 type HStep struct {
 	Kind string `json:"kind"`
 	V    int    `json:"v,omitempty"`
 	Op   *Op    `json:"op,omitempty"`
 	K    int    `json:"k,omitempty"`
+	Ops  []Op   `json:"ops,omitempty"`
 }
 
 type HScenario struct {
@@ -126,6 +129,9 @@ func genHistory(prop string, seed uint64, index int, tier string) *HScenario {
 		x := or.n(100)
 		v := or.n(nvals)
 		h := or.n(nh)
+		if prop == "C10" && or.p(1, 12) {
+			x = 99 // more concurrent phases: the pool population is the channel a stale mode travels through
+		}
 		switch {
 		case x < 70:
 			op := genOp(or, h, lens[h])
@@ -160,8 +166,16 @@ func genHistory(prop string, seed uint64, index int, tier string) *HScenario {
 				sc.Steps = append(sc.Steps, HStep{Kind: "posix"})
 				nvals++
 			}
-		default:
+		case x < 98:
 			sc.Steps = append(sc.Steps, HStep{Kind: "wrap", V: v, Op: &Op{API: "FindIndex", H: h}, K: or.between(1, 3)})
+		default:
+			n := or.between(2, 3)
+			var ops []Op
+			for j := 0; j < n; j++ {
+				hh := or.n(nh)
+				ops = append(ops, genOp(or, hh, lens[hh]))
+			}
+			sc.Steps = append(sc.Steps, HStep{Kind: "conc", V: v, Ops: ops, K: or.n(1 << 30)})
 		}
 	}
 	// make sure the history ends with checked calls on every value
@@ -472,6 +486,38 @@ func runHistoryT(sc *HScenario, tr *traceReq) *HOutcome {
 			}()
 		case "wrap":
 			steerWrap(lv.re, st, hb, hs)
+		case "conc":
+			got := make([]string, len(st.Ops))
+			fns := make([]func(), len(st.Ops))
+			for j := range st.Ops {
+				j := j
+				fns[j] = func() { got[j] = execOp(lv.re, &st.Ops[j], hb, hs) }
+			}
+			nsites := 16
+			if globalSites != nil {
+				nsites = len(globalSites.Sites)
+			}
+			if simrt.Current() >= 0 {
+				// already inside a counting run (attribution replay): no nested scheduler,
+				// the calls run one after another
+				for _, f := range fns {
+					f()
+				}
+			} else {
+				simrt.Run(simrt.Config{Policy: simrt.PolRandom, Seed: uint64(st.K), Mean: int64(8 + st.K%200), NumSites: nsites, MaxSteps: 1 << 40}, fns)
+			}
+			out.Nontrivial = true
+			for j := range st.Ops {
+				lh.str(got[j])
+				out.Checked++
+				if sc.Prop == "C20" {
+					continue
+				}
+				want := execOp(freshFor(sc, lv), &st.Ops[j], hb, hs)
+				if got[j] != want {
+					fail(HViolation{Step: si, Kind: "result", What: fmt.Sprintf("%s, run at the same time as %d other call(s) on the used value, differs from a fresh value", st.Ops[j].API, len(st.Ops)-1), Got: trunc(got[j], 300), Want: trunc(want, 300), Longest: lv.longest})
+				}
+			}
 		}
 		if sc.Prop == "C20" || si == len(sc.Steps)-1 {
 			for _, lv := range vals {
